@@ -87,6 +87,14 @@ def main(out):
          "\t\t} else if pd.schedwhen+forcePreemptNS <= now {\n\t\t\tif !verifOn {\n\t\t\t\tpreemptone(pp)\n\t\t\t}\n", 1),
     ], p)
     put(os.path.join(out, "proc.go"), s); repl[p] = os.path.join(out, "proc.go")
+    # time.go: synctest randomises the firing order of fake timers that are due at the same instant with the
+    # per-M cheaprand; draw it from the seeded stream instead (found by the gcsim engine: 2/60 divergent runs).
+    p = os.path.join(rt, "time.go")
+    s = open(p).read()
+    s = patch(s, [
+        ("\t\t\tt.rand = cheaprand()\n", "\t\t\tt.rand = cheaprand()\n\t\t\tif verifOn {\n\t\t\t\tt.rand = uint32(verifNext())\n\t\t\t}\n", 1),
+    ], p)
+    put(os.path.join(out, "time.go"), s); repl[p] = os.path.join(out, "time.go")
     put(os.path.join(out, "overlay.json"), json.dumps({"Replace": repl}, indent=1))
 
 if __name__ == "__main__":
